@@ -198,6 +198,16 @@ def json_mutations():
         d["data"].append([0.5, 0, 1.5])
         return d
 
+    @add("coord:bool-row", "wrong-type")
+    def _(d):
+        d["data"].append([True, 0, 1.5])
+        return d
+
+    @add("coord:bool-col", "wrong-type")
+    def _(d):
+        d["data"].append([0, False, 1.5])
+        return d
+
     @add("coord:string-col", "wrong-type")
     def _(d):
         d["data"].append([0, "0", 1.5])
@@ -666,6 +676,30 @@ def check(case, rec):
         if v[0] != "valid" or v[1] != "valid":
             raise Violation("library-output-not-valid", "%s written by the "
                             "library: verdict %r" % (container, v))
+        # the same path holding a library-written file of the *other*
+        # container a moment later must be judged for what it holds now
+        if case.get("double", [0])[0] % 4 == 0:
+            from biom import Table
+            small = Table(np.array([[1.0, 0.0], [2.0, 3.0]]), ["a", "b"],
+                          ["x", "y"], type="OTU table")
+            swap = os.path.join(d, "swap.biom")
+            shutil.copyfile(base, swap)
+            verdict(swap)
+            os.remove(swap)
+            if container == "json":
+                import h5py
+                with h5py.File(swap, "w") as f:
+                    small.to_hdf5(f, "vf")
+            else:
+                with open(swap, "w", encoding="utf8") as f:
+                    f.write(small.to_json("vf"))
+            vs = verdict(swap)
+            rec.cls("same-path-other-container")
+            if vs[0] != "valid" or vs[1] != "valid":
+                raise Violation("library-output-not-valid", "a path that "
+                                "held a %s file was re-written by the "
+                                "library in the other container and is now "
+                                "judged %r" % (container, vs))
         muts = JSON_MUTS if container == "json" else _h5_muts()
         applied = []
 
